@@ -16,10 +16,11 @@ def near(got, want, rel=1e-5, ab=1e-9):
 def check_state(st):
     from scipy.stats import norm
     from pylife.strength.failure_probability import FailureProbability
-    s50, d, (a, b, c), z = st['s50'], st['d'], st['t'], Fraction(*st['z'])
+    s50, d, (a, b, c), z, zoom = st['s50'], st['d'], st['t'], Fraction(*st['z']), st['zoom']
     viol = []
-    S, L = 10.0 ** (s50 / 20.0), 10.0 ** ((s50 + d) / 20.0)
-    sS, sL = b / 100.0, a / 100.0
+    lgS, lgL = s50 / 20.0, s50 / 20.0 + d / 20.0 / zoom
+    S, L = 10.0 ** lgS, 10.0 ** lgL
+    sS, sL = b / 100.0 / zoom, a / 100.0 / zoom
     want = float(norm.cdf(float(z)))
     case = {'strength_median': S, 'strength_std': sS, 'load_median': L, 'load_std': sL, 'exact_probit': str(z)}
     n = 0
@@ -53,8 +54,14 @@ def check_state(st):
                 errs = []
                 for N in (401, 3201):
                     n += 1
-                    x = np.linspace((s50 + d) / 20.0 - 12 * sL, (s50 + d) / 20.0 + 12 * sL, N)
-                    g = float(fp.pf_arbitrary_load(x, norm.pdf(x, loc=(s50 + d) / 20.0, scale=sL)))
+                    x = np.linspace(lgL - 12 * sL, lgL + 12 * sL, N)
+                    pdf = norm.pdf(x, loc=lgL, scale=sL)
+                    x0, pdf0 = x.copy(), pdf.copy()
+                    g = float(fp.pf_arbitrary_load(x, pdf))
+                    # the caller's arrays are inputs: untouched, and asking again (same object, same arrays) gives the same answer
+                    g_again = float(fp.pf_arbitrary_load(x, pdf))
+                    if not (np.array_equal(x, x0) and np.array_equal(pdf, pdf0)) or g_again != g:
+                        viol.append(('pf_arbitrary_load modified the arrays handed in / answers differently when asked again', {**case, 'samples': N}, g, g_again))
                     errs.append(abs(g - want))
                     if not 0.0 <= g <= 1.0 + 1e-12:
                         viol.append(('pf_arbitrary_load outside [0, 1]', {**case, 'samples': N}, want, g))
@@ -62,7 +69,7 @@ def check_state(st):
                     viol.append(('pf_arbitrary_load on a sampled log-normal density does not converge to the analytic value', case, want, errs))
                 # integration limits that cover the whole distribution give the same value
                 n += 1
-                g = float(fp.pf_norm_load(L, sL, lower_limit=(s50 + d) / 20.0 - 14 * sL, upper_limit=(s50 + d) / 20.0 + 14 * sL))
+                g = float(fp.pf_norm_load(L, sL, lower_limit=lgL - 14 * sL, upper_limit=lgL + 14 * sL))
                 if not near(g, want):
                     viol.append(('pf_norm_load with explicit limits covering +-14 standard deviations differs from the analytic value', case, want, g))
         except Exception as ex:
@@ -78,7 +85,7 @@ def _replay(blocks):
         n += k
         viol += v
         if st['d'] != 0 and st['t'][0] != 0:
-            nontriv.append((st['s50'], st['d'], tuple(st['t'])))
+            nontriv.append((st['s50'], st['d'], tuple(st['t']), st['zoom']))
         if not samples and st['d'] > 0 and st['t'][0] != 0:
             samples.append({'log10_strength_median_x20': st['s50'], 'log10_load_minus_strength_x20': st['d'], 'std_load_strength_root_x100': st['t'], 'exact_probit': st['z']})
     return n, nontriv, viol[:6], samples
